@@ -458,7 +458,7 @@ def real_line(o, derr):
             q = qual(o.cls)
             msg_map[FALLBACK_FMT % (str(derr), o.type_repr, o.str_exc)] = (
                 "Error serializing exception: {%s}. Original exception: <class '%s'>: {%s}" % (qual(type(derr)), shown_class(q), q))
-        if "_pyroTraceback" in vars(x) or not isinstance(x, (errors.PyroError, AttributeError, TypeError, ValueError, KeyError, RuntimeError)):
+        if "_pyroTraceback" in vars(x):      # it came over the wire
             outcome = "raised:" + R.enc_caught(x, msg_map)
         else:
             outcome = "raised:" + R.enc_machinery_error(x)
